@@ -18,7 +18,7 @@ ID = "C10"
 LEVEL = "exploration"
 RULE = ("document-order sequences of 0-12 dependencies over 1-4 names and versions from {1, 1.0, 1.9, 1.10, 1.10.0, 2, 0.9.9, "
         "10.0, 1.2.3.4} (equal versions with different content included), ALL permutations of multisets of size<=6, random "
-        "beyond; each sequence placed in 6 tree shapes (flat list, deep chain, scattered among tags, nested containers, tag "
+        "beyond; each sequence placed in 7 tree shapes (flat list, deep chain, scattered among tags, nested containers, a random tree consuming them in document order, tag "
         "root, inside appended children); constructor validation matrix enumerated. non-trivial = sequence has a name with "
         ">=2 distinct versions or an equal-version tie; distinct by (sequence, shape) digest")
 ASSUMPTIONS = ["reference version order: dot-separated integers, trailing zeros insignificant"]
@@ -58,6 +58,34 @@ def place(shape, deps):
         return ht.TagList([d[:half], (ht.TagList(*d[half:]),)], "x")
     if shape == "tag_root":
         return ht.tags.section(ht.div(*d[: len(d) // 3]), *d[len(d) // 3:])
+    if shape == "random_tree":
+        # a random tree consuming the dependencies in document order
+        import random as _r
+        rng = _r.Random(len(d) * 7919 + sum(map(ord, "".join(x.name + str(x.version) for x in d))))
+        it = iter(d)
+        left = [len(d)]
+
+        def sub(depth):
+            kids = []
+            for _ in range(rng.randint(0, 4)):
+                r = rng.random()
+                if r < 0.4 and left[0]:
+                    kids.append(next(it))
+                    left[0] -= 1
+                elif r < 0.6 or depth <= 0:
+                    kids.append(rng.choice(["t", ht.HTML("<i>h</i>"), None, 3]))
+                elif r < 0.8:
+                    kids.append(rng.choice([ht.div, ht.span, ht.tags.ul, ht.p])(*sub(depth - 1), _add_ws=rng.random() < 0.5))
+                else:
+                    inner = sub(depth - 1)
+                    kids.append(rng.choice([list, tuple, lambda x: ht.TagList(*x)])(inner))
+            return kids
+
+        top = sub(4)
+        while left[0]:
+            top.append(ht.div(next(it)))
+            left[0] -= 1
+        return ht.TagList(*top) if rng.random() < 0.5 else ht.div(*top)
     if shape == "appended":
         t = ht.div()
         for dep in d:
@@ -69,7 +97,7 @@ def place(shape, deps):
     raise ValueError(shape)
 
 
-SHAPES = ["flat_list", "deep_chain", "scattered", "nested_containers", "tag_root", "appended"]
+SHAPES = ["flat_list", "deep_chain", "scattered", "nested_containers", "tag_root", "appended", "random_tree"]
 
 
 def same_ids(a, b):
